@@ -202,15 +202,64 @@ Lemma ex_view :
   end.
 Proof. vm_compute. reflexivity. Qed.
 
+(* executable versions of the guards (used for concrete instances) *)
+Definition scalarsb (s : str) : bool := forallb scalarb s.
+Definition name_okb (s : str) : bool :=
+  forallb (fun x => negb (N.eqb x QUOTE)) s && forallb (fun c => negb (is_linebreak c)) s && scalarsb s.
+Definition ctype_okb (ct : str) : bool :=
+  forallb (fun x => negb (N.eqb x SEMI)) ct && forallb (fun x => negb (N.eqb x EQ)) ct && str_eqb (strip ct) ct.
+Definition fld_okb (f : fld) : bool :=
+  match f with
+  | FText n v => name_okb n && scalarsb v
+  | FFile n fn ct _ =>
+    name_okb n && name_okb fn && negb (match fn with [] => true | _ => false end) && ctype_okb ct
+    && forallb (fun c => negb (is_linebreak c)) ct && scalarsb ct
+  end.
+Definition no_delimb (B : bytes) (f : fld) : bool :=
+  match findb (token B) (data_bytes f ++ token B) with
+  | Some k => Nat.eqb k (length (data_bytes f))
+  | None => false
+  end.
+Definition parts_okb (B : bytes) (fs : list fld) : bool := forallb (fun f => fld_okb f && no_delimb B f) fs.
+
+Lemma scalarsb_sound s : scalarsb s = true -> scalars s.
+Proof.
+  intros H. apply Forall_forall. intros x Hx. apply scalarb_spec.
+  unfold scalarsb in H. rewrite forallb_forall in H. auto.
+Qed.
+
+Lemma name_okb_sound s : name_okb s = true -> name_ok s.
+Proof.
+  unfold name_okb, name_ok, lacks, no_linebreak. rewrite !andb_true_iff.
+  intros [[H1 H2] H3]. repeat split; auto using scalarsb_sound.
+Qed.
+
+Lemma fld_okb_sound f : fld_okb f = true -> fld_ok f.
+Proof.
+  destruct f as [n v | n fn ct c]; cbn [fld_okb fld_ok]; rewrite !andb_true_iff.
+  - intros [H1 H2]. split; auto using name_okb_sound, scalarsb_sound.
+  - intros [[[[[H1 H2] H3] H4] H5] H6].
+    apply name_okb_sound in H1, H2.
+    unfold ctype_okb in H4. rewrite !andb_true_iff in H4. destruct H4 as [[Hc1 Hc2] Hc3].
+    apply str_eqb_eq in Hc3.
+    split; [exact H1|]. split; [exact H2|].
+    split; [destruct fn; [discriminate H3 | discriminate]|].
+    split; [unfold ctype_ok, lacks; repeat split; assumption|].
+    split; [exact H5 | now apply scalarsb_sound].
+Qed.
+
+Lemma parts_okb_sound B fs : parts_okb B fs = true -> parts_ok B fs.
+Proof.
+  unfold parts_okb, parts_ok. rewrite forallb_forall. intros H. apply Forall_forall. intros f Hf.
+  specialize (H f Hf). apply andb_true_iff in H. destruct H as [H1 H2]. split; [now apply fld_okb_sound|].
+  unfold no_delimb in H2. unfold no_delim_in_data.
+  destruct (findb (token B) (data_bytes f ++ token B)) as [k|]; [|discriminate].
+  apply Nat.eqb_eq in H2. now subst k.
+Qed.
+
 Lemma ex_parts_ok : parts_ok ex_B ex_fields /\ (total_cost ex_fields <= 1000)%Z.
 Proof.
-  split; [|vm_compute; discriminate].
-  assert (Sc : forall l : str, forallb scalarb l = true -> scalars l).
-  { intros l H. apply Forall_forall. intros x Hx. apply scalarb_spec. rewrite forallb_forall in H. auto. }
-  unfold parts_ok, ex_fields.
-  repeat (apply Forall_cons || apply Forall_nil); (split; [|vm_compute; reflexivity]); cbn [fld_ok];
-    unfold name_ok, ctype_ok, lacks, no_linebreak;
-    repeat split; try (vm_compute; reflexivity); try (apply Sc; vm_compute; reflexivity); discriminate.
+  split; [apply parts_okb_sound; vm_compute; reflexivity | vm_compute; discriminate].
 Qed.
 
 (* F10: an upload with an empty file name is delivered as the form value None *)
